@@ -72,6 +72,9 @@ func concatSeq(v ssa.Value, depth int) (seq []catom, ok bool) {
 					clean = false
 				}
 			}
+			if seq, ok := copyCursorFill(x); ok {
+				return seq, true
+			}
 			if cp != nil && clean {
 				pv := prover.New(x.Parent())
 				d := pv.LinOf(x.Len).Add(pv.LenOf(cp.Call.Args[1]), -1)
@@ -404,16 +407,45 @@ func md5Inputs(fn *ssa.Function) (inputs []md5Use, ok bool) {
 		}
 		// in dominance order
 		var writes []*ssa.Call
+		ioWrites := map[*ssa.Call]bool{}
 		for _, b := range fn.DomPreorder() {
 			for _, ins := range b.Instrs {
 				call, isC := ins.(*ssa.Call)
-				if !isC || !call.Call.IsInvoke() || call.Call.Value != ssa.Value(n) {
+				if !isC {
+					continue
+				}
+				// io.WriteString(h, s) writes the octets of s to the hasher
+				if cal := call.Call.StaticCallee(); cal != nil && cal.Pkg != nil && cal.Pkg.Pkg.Path() == "io" && cal.Name() == "WriteString" && len(call.Call.Args) == 2 {
+					w := call.Call.Args[0]
+					for {
+						if ci, isCI := w.(*ssa.ChangeInterface); isCI {
+							w = ci.X
+							continue
+						}
+						break
+					}
+					if w == ssa.Value(n) {
+						ioWrites[call] = true
+						writes = append(writes, call)
+					}
+					continue
+				}
+				if !call.Call.IsInvoke() || call.Call.Value != ssa.Value(n) {
 					continue
 				}
 				writes = append(writes, call)
 			}
 		}
 		for _, call := range writes {
+			if ioWrites[call] {
+				if summed || inLoop(call.Block()) {
+					ok = false
+				}
+				s, o := concatSeq(call.Call.Args[1], 0)
+				ok = ok && o
+				seq = append(seq, s...)
+				continue
+			}
 			switch call.Call.Method.Name() {
 			case "Write":
 				// for _, part := range [][]byte{a, b, c} { h.Write(part) }: the parts in literal order
@@ -497,4 +529,120 @@ func wholeDigest(v ssa.Value, d ssa.Value) bool {
 		}
 	}
 	return false
+}
+
+// copyCursorFill: ms := make([]byte, L) filled by a chain of copies with a running cursor
+//
+//	n := copy(ms, a); n += copy(ms[n:], b); copy(ms[n:], c)
+//
+// in straight-line code, the slice used for nothing else until it is complete: a ++ b ++ c (++ zeros if L is provably
+// larger by a constant). Every copy must start where the previous one ended (a copy's result counted as the length of
+// its source, which holds because the pieces are shown to fit: the offsets plus lengths add up to L).
+func copyCursorFill(ms *ssa.MakeSlice) ([]catom, bool) {
+	if ms.Referrers() == nil {
+		return nil, false
+	}
+	pv := prover.New(ms.Parent())
+	var lin func(v ssa.Value, d int) prover.Lin
+	lin = func(v ssa.Value, d int) prover.Lin {
+		if d > 8 {
+			return pv.LinOf(v)
+		}
+		switch x := v.(type) {
+		case *ssa.BinOp:
+			switch x.Op {
+			case token.ADD:
+				return lin(x.X, d+1).Add(lin(x.Y, d+1), 1)
+			case token.SUB:
+				return lin(x.X, d+1).Add(lin(x.Y, d+1), -1)
+			}
+		case *ssa.Call:
+			if bi, ok := x.Call.Value.(*ssa.Builtin); ok && bi.Name() == "copy" {
+				return pv.LenOf(x.Call.Args[1])
+			}
+		}
+		return pv.LinOf(v)
+	}
+	type seg struct {
+		off prover.Lin
+		src ssa.Value
+		at  *ssa.Call
+	}
+	var segs []seg
+	for _, r := range *ms.Referrers() {
+		switch y := r.(type) {
+		case *ssa.Call:
+			bi, ok := y.Call.Value.(*ssa.Builtin)
+			if ok && bi.Name() == "copy" && y.Call.Args[0] == ssa.Value(ms) {
+				segs = append(segs, seg{prover.Const(0), y.Call.Args[1], y})
+			}
+			// any other use is the consumer (checked by the caller's own rules)
+		case *ssa.Slice:
+			if y.High != nil || y.Max != nil || y.Referrers() == nil {
+				return nil, false
+			}
+			off := prover.Const(0)
+			if y.Low != nil {
+				off = lin(y.Low, 0)
+			}
+			for _, rr := range *y.Referrers() {
+				c, ok := rr.(*ssa.Call)
+				if !ok {
+					if _, isDbg := rr.(*ssa.DebugRef); isDbg {
+						continue
+					}
+					return nil, false
+				}
+				bi, isB := c.Call.Value.(*ssa.Builtin)
+				if !isB || bi.Name() != "copy" || c.Call.Args[0] != ssa.Value(y) {
+					return nil, false
+				}
+				segs = append(segs, seg{off, c.Call.Args[1], c})
+			}
+		case *ssa.DebugRef:
+		case *ssa.IndexAddr, *ssa.Store:
+			return nil, false
+		}
+	}
+	if len(segs) < 2 {
+		return nil, false
+	}
+	for _, sg := range segs {
+		if inLoop(sg.at.Block()) {
+			return nil, false
+		}
+	}
+	var out []catom
+	cur := prover.Const(0)
+	used := make([]bool, len(segs))
+	for n := 0; n < len(segs); n++ {
+		found := -1
+		for i, sg := range segs {
+			if used[i] {
+				continue
+			}
+			if d := sg.off.Add(cur, -1); d.IsConst() && d.C == 0 {
+				found = i
+				break
+			}
+		}
+		if found < 0 {
+			return nil, false
+		}
+		used[found] = true
+		s, ok := concatSeq(segs[found].src, 1)
+		if !ok {
+			return nil, false
+		}
+		out = append(out, s...)
+		cur = cur.Add(pv.LenOf(segs[found].src), 1)
+	}
+	tail := pv.LinOf(ms.Len).Add(cur, -1)
+	if !tail.IsConst() || tail.C < 0 {
+		return nil, false
+	}
+	if tail.C > 0 {
+		out = append(out, catom{fmt.Sprintf("0x%d", tail.C), nil})
+	}
+	return normZeros(out), true
 }
